@@ -316,8 +316,13 @@ func (sv *ECDSASignatureVerifier) Verify(pubKey *PublicKey, msg, signature []byt
 			R, S *big.Int
 		}
 
-		if _, err := asn1.Unmarshal(signature, &esig); err != nil {
+		rest, err := asn1.Unmarshal(signature, &esig)
+		if err != nil {
 			return err
+		}
+
+		if len(rest) != 0 {
+			return errors.New("ecdsa: trailing data after the DER encoded signature")
 		}
 
 		r = esig.R
